@@ -18,6 +18,7 @@ import BumpverVerif.Gen.F_formatPrelude
 import BumpverVerif.Gen.F_rewriteTypes
 import BumpverVerif.Gen.F_v1Prim
 import BumpverVerif.Gen.PatternsPrims
+import BumpverVerif.Model.PepGroups
 open Lean
 namespace BV.Drv
 
@@ -58,9 +59,28 @@ def okStrPairs (l : List (Str × Str)) : Json := Json.mkObj [("ok", Json.arr (l.
 def pokDate (d : Nat × Nat × Nat) : Json := Json.mkObj [("ok", Json.arr #[pjnat d.1, pjnat d.2.1, pjnat d.2.2])]
 def pokBool (b : Bool) : Json := Json.mkObj [("ok", Json.bool b)]
 
+def nonAsciiP (s : Str) : Bool := s.any (fun c => c.toNat > 127)
+
 def ltInt (a b : Int) : Bool := decide (a < b)
 
+def optStrJson : Option Str → Json
+  | some s => jstr s
+  | none => Json.null
+
+/-- op `pep_groups`: the model-side matcher `groupsOf` (Model/PepGroups.lean) — what the ties of `Version.__init__` assume of
+    `Version._regex.search` (hypothesis `TieQ.SearchOk`); compared with the REAL regular expression by props/c16.py -/
+def handlePepGroups (j : Json) : Except String Json := do
+  let s ← getStr j "s"
+  if nonAsciiP s then pure unsupported else
+  match groupsOf s with
+  | none => pure (Json.mkObj [("ok", Json.null)])
+  | some g => pure (Json.mkObj [("ok", Json.mkObj [
+      ("epoch", optStrJson g.epoch), ("release", jstr g.release), ("pre_l", optStrJson g.pre_l), ("pre_n", optStrJson g.pre_n),
+      ("post_n1", optStrJson g.post_n1), ("post_l", optStrJson g.post_l), ("post_n2", optStrJson g.post_n2),
+      ("dev_l", optStrJson g.dev_l), ("dev_n", optStrJson g.dev_n), ("local", optStrJson g.loc)])])
+
 def handlePrims : Handler := fun op j =>
+  if op == "pep_groups" then some (handlePepGroups j) else
   if op != "prim" then none else some do
   let name ← getStr j "name"
   match String.ofList name with
